@@ -1,5 +1,7 @@
 import Cql.Audit
 import Cql.Props.C13
 import Cql.Props.C13Time
+import Cql.Props.C13AsWritten
 #audit_namespace Cql.Props.C13
 #audit_namespace Cql.Props.C13Time
+#audit_namespace Cql.Props.C13AsWritten
